@@ -58,6 +58,15 @@ type Cred struct {
 	Raw   S      `json:"raw,omitempty"`
 }
 
+// Carrier is a header, query parameter, form field or cookie that the operation's
+// parameter writer puts on the request. With the name of a credential, in a place
+// where the corresponding authenticator is NOT specified to look, it is a decoy.
+type Carrier struct {
+	In    string `json:"in"` // header | query | form | cookie
+	Name  S      `json:"name"`
+	Value S      `json:"value"`
+}
+
 // Client describes the request the client side is asked to build.
 type Client struct {
 	Method string `json:"method"` // POST when empty
@@ -75,6 +84,9 @@ type Client struct {
 	FormToken  *S     `json:"form_token,omitempty"`  // params writer: SetFormParam("access_token", v)
 	FormOther  bool   `json:"form_other,omitempty"`  // params writer also sets the form field other=x
 	FormFile   bool   `json:"form_file,omitempty"`   // params writer also attaches a file part (multipart only)
+	// Extra: further carriers written by the parameter writer, in this order (cookies are
+	// joined into one Cookie header)
+	Extra []Carrier `json:"extra,omitempty"`
 }
 
 // Server describes the authenticator that is consulted for the request.
@@ -109,6 +121,9 @@ type Case struct {
 	Client *Client `json:"client,omitempty"`
 	Server *Server `json:"server,omitempty"`
 	MW     *MW     `json:"mw,omitempty"`
+	// Then: unit cases only: the next request of a sequence, built on the SAME client
+	// Runtime and judged by the SAME authenticator value when its description is equal
+	Then *Case `json:"then,omitempty"`
 }
 
 // ---- reference: what the request carries ----
@@ -129,6 +144,7 @@ type absReq struct {
 	headers  map[string]string // api-key headers, by lower-cased name
 	query    map[string]string // query parameters, by exact name
 	form     map[string]string
+	cookies  map[string]string
 	formKind string // "" | urlencoded | multipart
 	// what the default-credential rule decided
 	defaultApplied bool
@@ -167,7 +183,7 @@ func (a *absReq) put(c Cred, by string) {
 // has one; a transport-wide default credential is applied only when the
 // operation has none of its own and no Authorization header is already set.
 func abstract(c *Client) *absReq {
-	a := &absReq{method: c.Method, headers: map[string]string{}, query: map[string]string{}, form: map[string]string{}}
+	a := &absReq{method: c.Method, headers: map[string]string{}, query: map[string]string{}, form: map[string]string{}, cookies: map[string]string{}}
 	if a.method == "" {
 		a.method = "POST"
 	}
@@ -182,6 +198,40 @@ func abstract(c *Client) *absReq {
 	}
 	if c.FormOther {
 		a.form["other"] = "x"
+	}
+	for _, e := range c.Extra {
+		name := string(e.Name)
+		switch e.In {
+		case "header":
+			k := strings.ToLower(name)
+			switch k {
+			case "authorization":
+				a.ambiguous = "Authorization header as a plain carrier (use preset)"
+			case "content-type", "accept", "cookie", "host", "content-length", "transfer-encoding", "connection", "user-agent":
+				a.ambiguous = "carrier uses a header the transport owns: " + k
+			}
+			if _, dup := a.headers[k]; dup {
+				a.ambiguous = "two writers set header " + k
+			}
+			a.headers[k] = string(e.Value)
+		case "query":
+			if _, dup := a.query[name]; dup {
+				a.ambiguous = "two writers set query parameter " + name
+			}
+			a.query[name] = string(e.Value)
+		case "form":
+			if _, dup := a.form[name]; dup {
+				a.ambiguous = "two writers set form field " + name
+			}
+			a.form[name] = string(e.Value)
+		case "cookie":
+			if _, dup := a.cookies[name]; dup {
+				a.ambiguous = "two cookies named " + name
+			}
+			a.cookies[name] = string(e.Value)
+		default:
+			a.ambiguous = "unknown carrier place " + e.In
+		}
 	}
 	if c.FormFile && c.Media != "multipart" {
 		a.ambiguous = "file upload under a non-multipart media type (a client-body matter, C11)"
@@ -302,6 +352,9 @@ func otherTokens(c *Client) []string {
 	}
 	if c.FormToken != nil {
 		out = append(out, string(*c.FormToken))
+	}
+	for _, e := range c.Extra {
+		out = append(out, string(e.Value), strings.TrimPrefix(strings.TrimPrefix(string(e.Value), "Bearer "), "Basic "))
 	}
 	return out
 }
